@@ -1,4 +1,4 @@
-\* the counters as coded on the pinned tree (Word, 16 bit): EXPECTED to violate the C02 invariants
+\* the counters as originally coded (Word, 16 bit): EXPECTED to violate StatusZeroIffNoError
 CONSTANTS MaxLines = 2 MaxFiles = 1 Wrap = 65536 Leaky = {}
 CONSTANTS Kinds <- KindsDiag OptSpace <- OptsTwo
 SPECIFICATION Spec
